@@ -1433,6 +1433,14 @@ theta_product_structure_to_elliptic_product(theta_couple_curve_t *E12, theta_str
  *
  */
 void
+theta_chain_finalize(theta_chain_t *chain)
+{
+    // release the array of isogeny steps allocated by the theta_chain_comput_* functions
+    free(chain->steps);
+    chain->steps = NULL;
+}
+
+void
 theta_chain_comput_naive(theta_chain_t *out,
                          int n,
                          theta_couple_curve_t *E12,
@@ -1443,7 +1451,7 @@ theta_chain_comput_naive(theta_chain_t *out,
 
     theta_couple_point_t P1, P2, P1m2;
     theta_point_t Q1, Q2, R1, R2;
-    theta_isogeny_t steps[n - 1];
+    theta_isogeny_t *steps;
     theta_structure_t codomain;
 
     ibz_t a, b;
@@ -1456,6 +1464,7 @@ theta_chain_comput_naive(theta_chain_t *out,
     out->T1 = *T1;
     out->T2 = *T2;
     out->steps = malloc((n - 1) * sizeof(theta_isogeny_t));
+    steps = out->steps;
 
     // First, we compute the first step
     // multiply by 2^n-1
@@ -1540,9 +1549,6 @@ theta_chain_comput_naive(theta_chain_t *out,
             theta_isogeny_eval(&Q2, &steps[i], &Q2);
         }
     }
-
-    // copying the steps
-    out->steps = steps;
 
     // final splitting step
     int is_split = splitting_comput(&out->last_step, &steps[n - 2].codomain);
